@@ -12,9 +12,13 @@ def run(m):
     d = tempfile.mkdtemp(prefix="mut_")
     try:
         shutil.copytree("/repo/src", d + "/src")
-        p = f"{d}/src/mdpax/{m['file']}"; s = open(p).read()
-        if m["old"] not in s: return m, "PATTERN-NOT-FOUND", "", False
-        open(p, "w").write(s.replace(m["old"], m["new"], 1))
+        if m.get("patch"):           # a seeded change kept as a diff (seeded/<id>/patch.diff)
+            pr0 = subprocess.run(["patch", "-p1", "-s", "-d", d, "-i", os.path.join(ROOT, m["patch"])], capture_output=True, text=True)
+            if pr0.returncode != 0: return m, "PATCH-FAILED", pr0.stdout[-120:], False
+        else:
+            p = f"{d}/src/mdpax/{m['file']}"; s = open(p).read()
+            if m["old"] not in s: return m, "PATTERN-NOT-FOUND", "", False
+            open(p, "w").write(s.replace(m["old"], m["new"], 1))
         env = dict(os.environ, MDPAX_SRC=d + "/src", VERIF_NO_HARNESS="1", VERIF_OUT_DIR=d)
         pr = subprocess.run([os.path.join(ROOT, "bin", "check"), m["property"], "--tier", "quick"], capture_output=True, text=True, env=env, cwd=ROOT)
         out = pr.stdout
